@@ -37,6 +37,20 @@ def cold_cases(tier):
     return cases
 
 
+def iter_cases(tier):
+    """an iterator source (from_iter asks is_finished before every pull and completes after the loop) in every shape"""
+    cases = []
+    n = 0
+    for N in (0, 1, 2, 3, 5):
+        for sh in SHAPES:
+            for u in (False, True):
+                n += 1
+                form = "local" if n % 2 else "threads"
+                cases.append(("it%d" % n, "(case it%d finalize %s iter %s (stims %d%s))" % (n, form, sh, N, " u" if u else ""),
+                              {"kind": "iter", "shape": sh.strip("()").split()[0], "len": N}))
+    return cases
+
+
 def disconnected_cases(tier):
     """inputs that never hold the observer: never() (its subscription is `()`), a subject terminated beforehand"""
     cases = []
@@ -77,7 +91,7 @@ def run(tier, seed, replay=None):
     proof_stage(rep, "C15src", limit=400)
     if not build_stage(rep):
         return rep.finish()
-    cases = load_replay_case(replay) if replay else hot_cases(tier) + cold_cases(tier) + disconnected_cases(tier) + twice_cases(tier) + race_cases(tier) + ileave2.cases(tier, Rng(seed), kinds=("fin",))
+    cases = load_replay_case(replay) if replay else hot_cases(tier) + cold_cases(tier) + iter_cases(tier) + disconnected_cases(tier) + twice_cases(tier) + race_cases(tier) + ileave2.cases(tier, Rng(seed), kinds=("fin",))
     correspond(rep, "C15", cases, "C15_exactly_once_right_after / C15_at_most_once / C15_once_when_unsubscribed / C15_race_once")
     c = rep.coverage
     hist = {}
